@@ -1407,7 +1407,8 @@ namespace avel {
         auto is_reconstruction_smaller = _mm_cmplt_ps(reconstructed, decay(v));
         auto corrected_result = _mm_add_ps(reconstructed, _mm_and_ps(is_reconstruction_smaller, _mm_set1_ps(1.0f)));
 
-        return blend(mask4x32f{is_output_self}, v, vec4x32f{corrected_result});
+        // Rounding to an integer keeps the sign of the argument, also when the result is zero
+        return copysign(blend(mask4x32f{is_output_self}, v, vec4x32f{corrected_result}), v);
 
         #endif
 
@@ -1449,7 +1450,8 @@ namespace avel {
         auto is_reconstruction_smaller = _mm_cmplt_ps(decay(v), reconstructed);
         auto corrected_result = _mm_sub_ps(reconstructed, _mm_and_ps(is_reconstruction_smaller, _mm_set1_ps(1.0f)));
 
-        return blend(mask4x32f{is_output_self}, v, vec4x32f{corrected_result});
+        // Rounding to an integer keeps the sign of the argument, also when the result is zero
+        return copysign(blend(mask4x32f{is_output_self}, v, vec4x32f{corrected_result}), v);
 
         #endif
 
@@ -1478,7 +1480,8 @@ namespace avel {
         auto converted = _mm_cvttps_epi32(decay(v));
         auto reconstructed = _mm_cvtepi32_ps(converted);
 
-        return blend(mask4x32f{is_output_self}, v, vec4x32f{reconstructed});
+        // Rounding to an integer keeps the sign of the argument, also when the result is zero
+        return copysign(blend(mask4x32f{is_output_self}, v, vec4x32f{reconstructed}), v);
 
         #endif
 
@@ -1511,7 +1514,8 @@ namespace avel {
         auto should_offset = abs(frac) >= vec4x32f{0.5f};
         auto ret = whole + keep(should_offset, offset);
 
-        return ret;
+        // whole + 0.0 is +0.0 for a negative zero, so restore the sign of the argument
+        return copysign(ret, v);
 
         /* Solution that works if the current rounding mode is set to nearest
          * Could potentially be used on older ARM implementations which don't support multiple rounding modes
@@ -1558,7 +1562,8 @@ namespace avel {
                 auto converted = _mm_cvtps_epi32(decay(v));
                 auto reconstructed = _mm_cvtepi32_ps(converted);
 
-                return blend(mask4x32f{is_output_self}, v, vec4x32f{reconstructed});
+                // Rounding to an integer keeps the sign of the argument, also when the result is zero
+                return copysign(blend(mask4x32f{is_output_self}, v, vec4x32f{reconstructed}), v);
             }
         default:
             return vec4x32f{0.0f};
